@@ -35,7 +35,7 @@ theorem shift_lineAfter (k cur : Nat) (p : Bool) (op : Op) :
     (op.shift k).lineAfter (cur + k) p = op.lineAfter cur p + k := by
   cases op with
   | trivia c t => simp only [Op.shift, Op.lineAfter]; split <;> omega
-  | token t l sc =>
+  | token t l sc r =>
     cases l with
     | none => simp only [Op.shift, Op.lineAfter]; (repeat' split) <;> omega
     | some n => simp only [Op.shift, Op.lineAfter, shiftLine]; (repeat' split) <;> omega
@@ -46,13 +46,13 @@ theorem shift_lineAfter (k cur : Nat) (p : Bool) (op : Op) :
 theorem shift_pendingAfter (k : Nat) (p : Bool) (op : Op) :
     (op.shift k).pendingAfter p = op.pendingAfter p := by
   cases op with
-  | token t l sc => cases l <;> rfl
+  | token t l sc r => cases l <;> rfl
   | _ => rfl
 
 theorem shift_budget (k cur : Nat) (p : Bool) (op : Op) (h : op.budget cur p = true) :
     (op.shift k).budget (cur + k) p = true := by
   cases op with
-  | token t l sc =>
+  | token t l sc r =>
     cases l with
     | none => simpa [Op.shift, Op.budget] using h
     | some n =>
